@@ -244,11 +244,48 @@ def make(two_deviations=False):
     return fn
 
 
+def scale_fn(g):
+    """Large but well-formed definitions (must be accepted) and a malformed element far into a long list (must be rejected cleanly)."""
+    shape = ("300-tasks-in-one-file", "task-with-150-deps", "200-args-and-options", "bad-dep-at-position-140", "bad-arg-at-position-180",
+             "duplicate-name-after-300-tasks", "option-value-of-20000-chars")[g.choose("shape", 7)]
+    proj = hrun.Project()
+    try:
+        ok = True
+        if shape == "300-tasks-in-one-file":
+            text = "".join("run_command(name='t%d', run='true')\n" % i for i in range(300)) + "group(name='x', deps=[':t299'])\n"
+        elif shape == "duplicate-name-after-300-tasks":
+            text = "".join("run_command(name='t%d', run='true')\n" % i for i in range(300)) + "group(name='x', deps=[':t299'])\nrun_command(name='t0', run='true')\n"
+            ok = False
+        elif shape in ("task-with-150-deps", "bad-dep-at-position-140"):
+            deps = [":t%d" % i for i in range(150)]
+            if shape.startswith("bad"):
+                deps[140] = 42
+                ok = False
+            text = "".join("group(name='t%d')\n" % i for i in range(150)) + "run_command(name='x', run='true', deps=%r)\n" % (deps,)
+        elif shape in ("200-args-and-options", "bad-arg-at-position-180"):
+            args = list(range(200))
+            if shape.startswith("bad"):
+                args[180] = [1]
+                ok = False
+            text = "run_experiment(name='x', run='true', args=%r, options=%r)\n" % (args, {"k%d" % i: i for i in range(200)})
+        else:
+            text = "run_command(name='x', run='true', options={'v': %r})\n" % ("z" * 20000)
+        proj.write("COND", text)
+        run_check(g, proj, "large definition: " + shape, ok)
+        g.goal("definition with hundreds of elements")
+        return {"nontrivial": True, "sample": {"case": shape, "accepted": ok}}
+    finally:
+        proj.cleanup()
+
+
 def spaces(tier):
     goals = ["accepted definition", "rejected definition", "include variant", "COND body raising a Python error"]
     sp = [Space("one-deviation", make(False), "4 constructors x (each parameter x (absent | %d pool values) | extraneous | positional | "
                 "duplicate name), %d include variants, %d raising bodies x {COND, included file}; run --check and run" % (len(POOL), len(INCLUDES), len(RAISES)),
                 depth=4, goals=goals, outside=["BaseException from user code", "more than two deviations"])]
+    sp.append(Space("scale-large-definitions", scale_fn, "COND files with 300 tasks, a task with 150 deps, 200 args/options, a 20000-character option "
+                    "value - accepted - and the same with one malformed element far into the list / a duplicate name at the end - rejected cleanly",
+                    depth=2, goals=["definition with hundreds of elements"]))
     sp.append(Space("two-deviations", make(True), "as above with up to two simultaneous deviations", depth=5))
     return sp
 
